@@ -24,7 +24,7 @@ type Case struct {
 	Commands []string `json:"commands"` // one catalogue name per inspection
 	Rules    []string `json:"rules"`    // one rule-list name per inspection
 	Entry    int      `json:"entry"`    // 0 cwd, 1 explicit run directory
-	Steps    string   `json:"steps"`    // ok | rule-violated | link-tampered
+	Steps    string   `json:"steps"`    // ok | rule-violated | link-tampered | ok-sha512 (step link recorded with sha512 only)
 	DSSE     bool     `json:"dsse"`
 }
 
@@ -134,7 +134,7 @@ func arts(state map[string]string, prefix string) ref.Artifacts {
 
 // expected computes the verdict and the expected command log by the reference.
 func expected(cs Case, runDir string) (accept bool, dontcare bool, log []int, why string) {
-	if cs.Steps != "ok" {
+	if cs.Steps != "ok" && cs.Steps != "ok-sha512" {
 		return false, false, nil, "step check fails"
 	}
 	if cs.Entry == 1 && len(dirContent(cs.Dir)) == 0 {
@@ -146,6 +146,11 @@ func expected(cs Case, runDir string) (accept bool, dontcare bool, log []int, wh
 	}
 	state := dirContent(cs.Dir)
 	s1 := ref.LinkArts{Materials: ref.Artifacts{}, Products: ref.Artifacts{"f": {"sha256": h("F\n")}, "g": {"sha256": h("G\n")}}}
+	if cs.Steps == "ok-sha512" {
+		// the step link was recorded with another hash algorithm than inspections use: nothing it reports can be
+		// found equal to what an inspection records
+		s1 = ref.LinkArts{Materials: ref.Artifacts{}, Products: ref.Artifacts{"f": {"sha512": h("F\n")}, "g": {"sha512": h("G\n")}}}
+	}
 	links := map[string]ref.LinkArts{"s1": s1}
 	type rec struct{ m, p ref.Artifacts }
 	var recs []rec
@@ -211,6 +216,9 @@ func execute(c *mcx.Ctx, cs Case) (obs, sig, class string) {
 	}
 	s1 := gen.Step("s1", 1, []string{k1.ID}, [][]string{{"DISALLOW", "*"}}, prodRules)
 	link := gen.Link("s1", gen.Arts(), gen.Arts("f", h("F\n"), "g", h("G\n")), "build")
+	if cs.Steps == "ok-sha512" {
+		link.Products = map[string]intoto.HashObj{"f": {"sha512": h("F\n")}, "g": {"sha512": h("G\n")}}
+	}
 	lp := gen.DumpLink(linkDir, "s1", k1.ID, gen.MustWrap(link, cs.DSSE, k1.Full))
 	if cs.Steps == "link-tampered" {
 		gen.EditJSONFile(lp, func(doc map[string]any) {
@@ -279,7 +287,7 @@ func execute(c *mcx.Ctx, cs Case) (obs, sig, class string) {
 	if accept && len(got) != len(wantLog) {
 		return obs, "C09|inspection-command-not-executed|" + cmdClass + "|" + tag, class
 	}
-	if cs.Steps != "ok" && len(got) > 0 {
+	if cs.Steps != "ok" && cs.Steps != "ok-sha512" && len(got) > 0 {
 		return obs, "C09|inspection-ran-although-step-check-failed|steps=" + cs.Steps + "|" + tag, class
 	}
 	if !accept && len(got) > len(wantLog) && strings.Contains(why, "command") {
@@ -336,7 +344,7 @@ func enumerate(thorough bool, emit func(Case)) {
 			for n := 0; n <= 2; n++ {
 				rec(n, nil, nil, func(cm, ru []string) {
 					emit(Case{Dir: dir, Commands: cm, Rules: ru, Entry: entry, Steps: "ok", DSSE: true})
-					for _, st := range []string{"rule-violated", "link-tampered"} {
+					for _, st := range []string{"rule-violated", "link-tampered", "ok-sha512"} {
 						emit(Case{Dir: dir, Commands: cm, Rules: ru, Entry: entry, Steps: st})
 					}
 				}, []string{"true", "create-n", "exit-1"}, []string{"permissive", "match-last-step"})
@@ -392,6 +400,6 @@ func init() {
 		Rule: "full product: final-product directory {as recorded by the last step, one file added, removed, modified, line ending changed only, empty} x 0..2 inspections (thorough: + 3 over a 4-command / 3-rule-list menu) x per inspection a command from a 12-element catalogue (no-op, create / modify / delete a file, exit 1 / 2 / 127 / 255, killed by a signal, missing executable, empty command, 1 MiB of output) x a rule list from {none, permissive, MATCH * WITH PRODUCTS FROM last step + DISALLOW *, REQUIRE, CREATE + DISALLOW, malformed} x {working directory, explicit run directory (rules in their prefix-qualified form)}; " +
 			"plus the DSSE wrapper and failing step checks (rule violated, link tampered) over a 3-command / 2-rule-list menu. Real processes; every command appends its index to a log. The reference predicts each command's effect on the directory (incl. the <name>.link files the verifier drops into the working directory), hashes contents itself and evaluates the rules with ref.Rules. non-trivial = at least one inspection and the reference decides. states = cases, transitions = inspections.",
 		Assumptions: []string{"catalogue commands have the stated file-system effects under /bin/sh", "an empty explicit run directory is refused by the entry point (don't-care)", "observations are compared after replacing scratch paths"},
-		BudgetQuick:  150e9,
+		BudgetQuick: 150e9,
 	})
 }
